@@ -33,6 +33,9 @@ type Profile struct {
 	TTL                 []int64 // choices (-1 unset)
 	ForbidForce         int     // percent of Jobs forbidding force deletion
 	ForeignPct          int     // percent of Jobs for which a foreign Pod occupies a task name
+	KillAfter           int     // kills come at least this many seconds after the Job's creation (default 0)
+	CountOnly           bool    // parallel Jobs use withCount only (index 0 then has the task name a foreign Pod is planted on)
+	ForeignOnRetry      bool    // the foreign Pod always sits on the name of the second attempt (the Job is refused half-way, with recorded tasks)
 	Spread              int     // seconds over which Job creations are spread
 	Namespaces          []string
 	Burst               bool          // create several Jobs within the same second
@@ -270,6 +273,9 @@ func Gen(r *rand.Rand, p Profile) *Workload {
 		if r.Intn(100) < p.ForeignPct {
 			// a foreign object occupies the name of the first task of the first index (retry 0 or 1)
 			retry := r.Intn(2)
+			if p.ForeignOnRetry {
+				retry = 1
+			}
 			wl.Ops = append(wl.Ops, UserOp{At: at - time.Second + time.Duration(retry)*2*time.Second, Name: "plant foreign pod for " + name, Do: func(w *World) {
 				kind := w.Rnd.Intn(3)
 				pod := &corev1.Pod{ObjectMeta: metav1.ObjectMeta{Name: fmt.Sprintf("%s-gezdqo-%d", obj.Name, retry), Namespace: obj.Namespace}}
@@ -316,7 +322,7 @@ func Gen(r *rand.Rand, p Profile) *Workload {
 			}})
 		}
 		if r.Intn(100) < p.KillPct {
-			killAt := at + time.Duration(r.Intn(90))*time.Second
+			killAt := at + time.Duration(p.KillAfter+r.Intn(90))*time.Second
 			delay := time.Duration(0)
 			if r.Intn(100) < p.FutureKill {
 				delay = time.Duration(1+r.Intn(20)) * time.Second
@@ -421,7 +427,11 @@ func genTemplate(r *rand.Rand, p Profile, t *execution.JobTemplate) {
 			strat = execution.AnySuccessful
 		}
 		ps := &execution.ParallelismSpec{CompletionStrategy: strat}
-		switch r.Intn(4) {
+		shape := r.Intn(4)
+		if p.CountOnly {
+			shape = 3
+		}
+		switch shape {
 		case 0:
 			ps.WithKeys = []string{"a", "b", "c"}[:2+r.Intn(2)]
 		case 1:
